@@ -33,6 +33,8 @@ const FINAL_WAIT_MS: u64 = 2800;
 pub struct Ping {
     id: u64,
     reply_len: u32,
+    /// the handler takes this long over this request
+    work_ms: u32,
     payload: Vec<u8>,
 }
 
@@ -62,8 +64,8 @@ impl Handler<Ping> for Echo {
     async fn on_message(&self, msg: Request<Ping>) -> Result<Self::Reply, Status> {
         let ping: Ping = msg.deserialize_view().map_err(Status::internal)?;
         *self.runs.lock().unwrap().entry(ping.id).or_default() += 1;
-        if self.slow_ms > 0 {
-            tokio::time::sleep(Duration::from_millis(self.slow_ms)).await;
+        if self.slow_ms + ping.work_ms as u64 > 0 {
+            tokio::time::sleep(Duration::from_millis(self.slow_ms + ping.work_ms as u64)).await;
         }
         // a request that arrives is the request that was sent, whole
         let head_len = (8 + ping.id % 5) as usize;
@@ -263,6 +265,13 @@ async fn run_schedule(sched: Vec<Value>, slow_ms: u64) -> (Vec<Observed>, BTreeM
     let relay_task = tokio::spawn(relay(listener, server_addr, link.clone()));
 
     let channel = Channel::connect(relay_addr);
+    // another client of the same server, with a connection (and a relay) of its own: what happens to it is none of the
+    // first client's business
+    let (listener_b, relay_b_addr) = listen_retry().await;
+    let (tx_b, _rx_b) = watch::channel(Mode::Up);
+    let link_b = Arc::new(Link { tx: tx_b, s2c_budget: AtomicI64::new(-1), c2s_budget: AtomicI64::new(-1) });
+    let relay_b_task = tokio::spawn(relay(listener_b, server_addr, link_b.clone()));
+    let channel_b = Channel::connect(relay_b_addr);
     let mut tasks = vec![];
     let mut sent: Vec<(u64, u64)> = vec![];
     for s in &sched {
@@ -272,13 +281,17 @@ async fn run_schedule(sched: Vec<Value>, slow_ms: u64) -> (Vec<Observed>, BTreeM
             "repair" | "release" => { let _ = link.tx.send(Mode::Up); },
             "hold_reply" => link.s2c_budget.store(s["bytes"].as_i64().unwrap(), Ordering::SeqCst),
             "hold_request" => link.c2s_budget.store(s["bytes"].as_i64().unwrap(), Ordering::SeqCst),
+            "other_cut" => { let _ = link_b.tx.send(Mode::Down); },
+            "other_mend" => { let _ = link_b.tx.send(Mode::Up); },
             "tick" => tokio::time::sleep(Duration::from_millis(TICK_MS)).await,
             "send" => {
                 let id = s["r"].as_u64().unwrap();
                 let timeout_ms = s["timeout"].as_u64().unwrap() * TICK_MS;
                 let reply_len = s["reply_len"].as_u64().unwrap_or(0) as u32;
                 let req_len = s["req_len"].as_u64().unwrap_or(0) as usize;
-                let mut client = RpcClient::<Echo>::new(channel.clone());
+                let work_ms = s["work_ms"].as_u64().unwrap_or(0) as u32;
+                let other = s["other"].as_bool().unwrap_or(false);
+                let mut client = RpcClient::<Echo>::new(if other { channel_b.clone() } else { channel.clone() });
                 if timeout_ms > 0 {
                     client.set_timeout(Duration::from_millis(timeout_ms));
                 }
@@ -287,7 +300,7 @@ async fn run_schedule(sched: Vec<Value>, slow_ms: u64) -> (Vec<Observed>, BTreeM
                 let obs = observed.clone();
                 tasks.push(tokio::spawn(async move {
                     let start = Instant::now();
-                    let msg = Ping { id, reply_len, payload: request_payload(id, req_len) };
+                    let msg = Ping { id, reply_len, work_ms, payload: request_payload(id, req_len) };
                     let res = client.send(&msg).await;
                     let elapsed_ms = start.elapsed().as_millis() as u64;
                     let o = match res {
@@ -331,7 +344,9 @@ async fn run_schedule(sched: Vec<Value>, slow_ms: u64) -> (Vec<Observed>, BTreeM
         t.abort();
     }
     relay_task.abort();
+    relay_b_task.abort();
     let _ = link.tx.send(Mode::Down);
+    let _ = link_b.tx.send(Mode::Down);
     server.shutdown();
     let o = observed.lock().unwrap().clone();
     let r = runs.lock().unwrap().clone();
@@ -344,8 +359,10 @@ fn random_schedule(rng: &mut StdRng) -> Vec<Value> {
     let mut next_id = 1;
     let mut link_up = true;
     let big = rng.gen_bool(0.5);
+    // every other schedule has a second client with a connection of its own, which is cut and mended now and then
+    let two = rng.gen_bool(0.5);
     for _ in 0..n {
-        match rng.gen_range(0..11) {
+        match rng.gen_range(0..if two { 14 } else { 11 }) {
             0 => { out.push(json!({"e": "partition"})); link_up = false; },
             1 => { out.push(json!({"e": "hold"})); link_up = false; },
             2 if !link_up => { out.push(json!({"e": "repair"})); link_up = true; },
@@ -356,9 +373,17 @@ fn random_schedule(rng: &mut StdRng) -> Vec<Value> {
                 let sizes = [0u64, 70_000, 300_000, 1_200_000];
                 let reply_len = if big { sizes[rng.gen_range(0..4)] } else { 0 };
                 let req_len = if big && rng.gen_bool(0.4) { sizes[rng.gen_range(1..4)] } else { 0 };
-                out.push(json!({"e": "send", "r": next_id, "timeout": t, "reply_len": reply_len, "req_len": req_len}));
+                let works = [0u64, 0, 120, 300, 300];
+                let work_ms = if two { works[rng.gen_range(0..5)] } else { 0 };
+                out.push(json!({"e": "send", "r": next_id, "timeout": t, "reply_len": reply_len, "req_len": req_len, "work_ms": work_ms}));
                 next_id += 1;
             },
+            11 => {
+                out.push(json!({"e": "send", "r": next_id, "timeout": 0, "reply_len": 0, "req_len": 0, "work_ms": 0, "other": true}));
+                next_id += 1;
+            },
+            12 => out.push(json!({"e": "other_cut"})),
+            13 => out.push(json!({"e": "other_mend"})),
             // ... or after some more bytes from the client: a request stopped half-way
             8 if big && link_up => {
                 let bytes = [0i64, 9, 40, 200, 20_000, 100_000][rng.gen_range(0..6)];
@@ -432,7 +457,12 @@ pub async fn run() {
     let mut held_replies = 0u64;
     for (i, slow_ms, h) in handles {
         let sched = &scheds[i];
-        let faults = sched.iter().filter(|s| ["partition", "hold", "repair", "release", "hold_reply", "hold_request"].contains(&s["e"].as_str().unwrap())).count();
+        // (faults of the first client's link, a handler that takes its time, and - for the second client's own requests - the
+        // cuts of its link; a cut of the second client's link is no fault for the first client)
+        let faults = sched.iter().filter(|s| ["partition", "hold", "repair", "release", "hold_reply", "hold_request"].contains(&s["e"].as_str().unwrap())).count()
+            + sched.iter().filter(|s| s["work_ms"].as_u64().unwrap_or(0) > 0).count();
+        let other_ids: Vec<u64> = sched.iter().filter(|s| s["other"].as_bool().unwrap_or(false)).map(|s| s["r"].as_u64().unwrap()).collect();
+        let other_cuts = sched.iter().filter(|s| s["e"] == "other_cut").count();
         held_replies += sched.iter().filter(|s| s["e"] == "hold_reply" || s["e"] == "hold_request").count() as u64;
         let (obs, runs) = match h.await {
             Ok(x) => x,
@@ -452,7 +482,8 @@ pub async fn run() {
             writeln!(f, "{}", json!({"sched": i, "slow_ms": slow_ms, "id": o.id, "timeout_ms": o.timeout_ms, "outcome": o.outcome,
                 "reply_id": o.reply_id, "payload_ok": o.payload_ok, "elapsed_ms": o.elapsed_ms,
                 "handler_runs": runs.get(&o.id).cloned().unwrap_or(0),
-                "faults": faults + if slow_ms > 0 { 1 } else { 0 }, "slack_ms": SLACK_MS, "transport": "tcp",
+                "faults": faults + if slow_ms > 0 { 1 } else { 0 } + if other_ids.contains(&o.id) { other_cuts } else { 0 },
+                "slack_ms": SLACK_MS, "transport": "tcp",
                 // the schedule goes with every event that looks odd (for the replay file) and with a sample of the others
                 "schedule": if odd || requests % 400 == 1 { Value::Array(sched.clone()) } else { json!([]) }})).unwrap();
         }
